@@ -109,4 +109,25 @@ def oracle_C02(C, rec, counters):
     return out
 
 
-ORACLES = {"C02": oracle_C02}
+def oracle_C03(C, rec, counters):
+    """bounds hook of the guarded instrumentation (every peek_char(offset) / bump*(count) of every
+    memory_input, including the ones PEGTL constructs internally) + input end untouched +
+    final cursor within the data"""
+    out = []
+    cur = rec["cur"]
+    counters["runs_with_bounds_hook"] += 1
+    if "OOB=" in cur:
+        out.append("access outside [current,end): " + cur[cur.index("OOB="):])
+    if "ENDMOVED" in cur:
+        out.append("the end of the input was left moved after the run")
+    n = 0 if rec["input"] == "-" else len(rec["input"]) // 2
+    try:
+        b = int(cur.split(",")[0])
+        if b < 0 or b > n:
+            out.append("cursor outside the data after the run: byte %d of %d" % (b, n))
+    except ValueError:
+        pass
+    return out
+
+
+ORACLES = {"C02": oracle_C02, "C03": oracle_C03}
